@@ -59,7 +59,7 @@ def gen_defn(rng, kind):
         return gen.program(rng, n_state=(1, 5), n_control=(0, 2), n_calib=(0, 2), n_sensor=(1, 3),
                            n_reading=(1, 4), depth=2 if rng.random() < 0.6 else 3)
     return gen.contractive_program(rng, n_state=(1, 4), n_control=(0, 2), n_calib=(0, 2),
-                                   n_sensor=(1, 3), n_reading=(1, 3), depth=2)
+                                   n_sensor=(1, 3), n_reading=(1, 3), depth=1, n_shared=(0, 1))
 
 
 def run_unit(unit, ctx):
